@@ -40,6 +40,10 @@ def catalog():
     add('ring_split_net', like='ring', n_live=80, n_batch=20, n_eff=80, f_live=0.1, n_points_min=5,
         split_threshold=0.3, n_networks=1, discard=True)
     add('const', like='const', n_live=30, n_batch=15, n_eff=100, f_live=0.1)
+    add('g5', like='gwide', n_dim=5, n_live=60, n_batch=30, n_eff=100, f_live=0.15, n_points_min=8)
+    add('net2_tanh', like='gauss', n_live=40, n_batch=20, n_networks=2, n_eff=60, f_live=0.15,
+        nn=dict(hidden_layer_sizes=(5, 4), activation='tanh', max_iter=60), pool_s=3, ext='.hdf5',
+        pathlib=True, discard=True)
     add('half', like='half', n_live=40, n_batch=20, n_eff=120, f_live=0.1)
     add('plateau', like='plateau', n_live=40, n_batch=20, n_eff=120, f_live=0.1)
     add('wrap', like='wrap', n_live=40, n_batch=20, n_eff=120, f_live=0.1, periodic=[0])
